@@ -39,7 +39,7 @@ man = {
               'baseline_off_cmd': 'cd /repo && /venv/bin/python -m pytest -ra -q -p no:cacheprovider --timeout=900 --continue-on-collection-errors',
               'source_commits': [], 'add_only': True},
     'engines': [{'name': 'pyvc', 'path': 'pyvc/', 'serves_properties': sorted(k for k in claimed if not k.startswith('_')),
-                 'kind_free_text': 'contract-based deductive verifier for Python written for this task: re-extracts the real function source on every run, mechanical AST rewriting (loop cuts at sidecar invariants), symbolic execution under CPython with z3 proxies, callee = contract, every assertion a z3/cvc5 verification condition; counterexamples replayed natively under /venv/bin/python'}],
+                 'kind_free_text': 'contract-based deductive verifier for Python written for this task: re-extracts the real function source on every run, mechanical AST rewriting (loop cuts at sidecar invariants), symbolic execution under CPython with z3 proxies, callee = contract, every assertion a verification condition discharged by z3 (in process, then the z3 command line tool in a fresh process) or cvc5; counterexamples replayed natively under /venv/bin/python'}],
     'checks': checks,
     'notes': 'Contracts: /verif/contracts/Cxx.py; ledger of defects: /verif/known_findings.json; fix commits in /repo start with "fix:". Exit codes: 0 held, 1 VIOLATION, 2 UNDECIDED, 3 CHECKER-ERROR.',
     'not_applicable': not_app,
